@@ -19,6 +19,7 @@ from pathlib import Path
 
 import numpy as np
 
+import c19_scale
 import romsfiles as rf
 import run_ladim as rl
 
@@ -30,7 +31,11 @@ RULE = ("Runs: all run lengths N in 0..8 x output periods 1..3 x cold/warm start
         "four repetitions with other releases, kills and modes), the way each of the four plug-ins is given (abs, abs+.py, relative, bare name with importable decoy, "
         "importable) and which modules have a close rotate with the case index; releases at several steps, IBM kills at "
         "several steps. Loader cases: file exists x importable x suffix x relative/absolute, and pairs of same-named "
-        "files in two directories loaded in one process. Non-trivial = distinct (start, N, period, modes, close set, "
+        "files in two directories loaded in one process. Scale cases (c19_scale.py, always present, first, oracle only): "
+        "full runs through ladim.main.main with 1000..148574 particles (sizes around powers of two and round numbers, a "
+        "million stored instances), slow and mass mortality, second releases, 1300..1536 steps with 1536 records / more than "
+        "1000 steps between records and forcing frames, warm starts from such output; every IBM call and every record "
+        "is compared with the particles living at its time. Non-trivial = distinct (start, N, period, modes, close set, "
         "kill steps) for runs, distinct (file, importable, suffix, relative, pair) for loader cases.")
 TRUSTED = ["Coq 8.16.1 kernel + vm_compute", "hand-written models coq/Model/Protocol.v and coq/Model/Sim.v",
            "the logging wrappers of this harness (monkeypatched update/__init__ of the built-in modules, plug-in subclasses)",
@@ -242,7 +247,7 @@ class Patches:
 # --------------------------------------------------------------------------------------------------
 def gen_cases(ctx):
     rng = ctx.rng
-    out = []
+    out = list(c19_scale.gen_cases())  # deterministic cases of realistic size, always first (no random draws)
     nmax, pmax = (8, 3) if ctx.quick else (14, 5)
     k = 0
     for rep in range(1 if ctx.quick else 4):
@@ -476,6 +481,8 @@ def do_run(d, conf, desc, rec):
 
 
 def eval_case(desc, ctx):
+    if desc["k"] == "scale":
+        return c19_scale.eval_scale(desc, ctx)
     if desc["k"] in ("load", "pair"):
         return eval_load(desc, ctx)
     rec = sys.modules.get("c19_recorder") or make_recorder()
